@@ -1270,6 +1270,14 @@ def canon(expr, params=(), rename=None, consts=None):
             if fn and (fn.split('.')[0] in rename or fn.split('.')[0] in params) and fn.split('.')[0] != 'self':
                 fn = None           # method call on a local / parameter: the receiver is a term, not a name
             fn = _FN_ALIAS.get(fn, fn)
+            if fn in ('sorted', 'min', 'max', 'sum', 'any', 'all', 'tuple', 'set', 'enumerate', 'len', 'np.array', 'np.asarray') and e.args \
+                    and isinstance(e.args[0], ast.Call) and isinstance(e.args[0].func, ast.Name) and e.args[0].func.id == 'list' \
+                    and len(e.args[0].args) == 1 and not e.args[0].keywords and fn not in ('len', 'np.array', 'np.asarray'):
+                # sorted(list(x), ..) is sorted(x, ..): the consumer walks its argument once anyway
+                e = ast.Call(func=e.func, args=[e.args[0].args[0]] + list(e.args[1:]), keywords=e.keywords)
+            if isinstance(e.func, ast.Attribute) and e.func.attr == 'join' and len(e.args) == 1 and not e.keywords and isinstance(e.args[0], ast.ListComp):
+                # sep.join([..]) is sep.join(..)
+                e = ast.Call(func=e.func, args=[ast.GeneratorExp(elt=e.args[0].elt, generators=e.args[0].generators)], keywords=[])
             if isinstance(e.func, ast.Attribute) and e.func.attr == 'reshape' and len(e.args) == 2 and not e.keywords:
                 shp = [a.value if isinstance(a, ast.Constant) else (-a.operand.value if isinstance(a, ast.UnaryOp) and isinstance(a.op, ast.USub) and isinstance(a.operand, ast.Constant) else None) for a in e.args]
                 # column / row view of a vector: x.reshape(-1, 1) is x[:, None], x.reshape(1, -1) is x[None, :]
@@ -1354,6 +1362,10 @@ def canon(expr, params=(), rename=None, consts=None):
         if isinstance(e, ast.List):
             return ('list',) + tuple(c(x) for x in e.elts)
         if isinstance(e, ast.Compare):
+            if len(e.ops) == 1 and isinstance(e.ops[0], (ast.In, ast.NotIn)) and isinstance(e.comparators[0], ast.Call) \
+                    and isinstance(e.comparators[0].func, ast.Attribute) and e.comparators[0].func.attr == 'keys' and not e.comparators[0].args:
+                # `k in d.keys()` is `k in d`
+                return c(ast.Compare(left=e.left, ops=e.ops, comparators=[e.comparators[0].func.value]))
             if len(e.ops) == 1:
                 op, l, r = type(e.ops[0]).__name__, c(e.left), c(e.comparators[0])
                 if op in ('Gt', 'GtE'):                      # one orientation for order comparisons
